@@ -145,7 +145,10 @@ def _exh_chunk(args):
     return sess.export()
 
 
-WORDS = ["weights", "gel", "edges", "nodes", "meta", "version_etag", "user.name", "a.b.c", "", "x", "é", "k" * 40, "0", "null"]
+WORDS = ["weights", "gel", "edges", "nodes", "meta", "version_etag", "user.name", "a.b.c", "", "x", "é", "k" * 40, "0", "null",
+         # characters that str.splitlines() / text-mode readers treat as line ends, and other code points a JSON text may carry raw
+         "a\u2028b", "\u2029", "x\x85y", "v\x0bt", "f\x0cf", "\x1c\x1d\x1e", "cr\rlf\n", "tab\t", "\u00a0", "中→文", "\U0001f600", "q\"uote", "back\\slash", "\x00nul", "\ufeffbom"]
+STRS = ["s", "", "line\u2028sep", "para\u2029sep", "nel\x85", "vt\x0bff\x0c", "fs\x1c", "crlf\r\n", "中→", "\U0001f600", "\x00", "\ufeff"]
 
 
 def rand_obj(rng, depth=0):
@@ -157,9 +160,9 @@ def rand_obj(rng, depth=0):
         if r < 0.35 and depth < 3:
             o[k] = rand_obj(rng, depth + 1)
         elif r < 0.45:
-            o[k] = [rng.choice([1, 1.0, "s", None, True, {"a": 1}]) for _ in range(rng.randint(0, 3))]
+            o[k] = [rng.choice([1, 1.0, "s", None, True, {"a": 1}, rng.choice(STRS)]) for _ in range(rng.randint(0, 3))]
         else:
-            o[k] = rng.choice([0, 1, -1, 1.0, 0.5, True, False, None, "s", "", 1e300, -0.0, 2 ** 63, 0.1 + 0.2])
+            o[k] = rng.choice([0, 1, -1, 1.0, 0.5, True, False, None, "s", "", 1e300, -0.0, 2 ** 63, 0.1 + 0.2, rng.choice(STRS), rng.choice(STRS)])
     return o
 
 
